@@ -3,7 +3,7 @@ import collections
 import re
 
 from mirlib import op_place, describe_rvalue, AnchorMissing, describe_operand, dom_guards, guards, _suffix_match
-from rules.common import crate_aggregates, owner_def, where
+from rules.common import answers_only_with, crate_aggregates, owner_def, where
 from rules.C19 import table
 
 META = {
@@ -639,8 +639,9 @@ def run(ctx):
         rt = ctx.crate(RT)
         RK = "backpressure::key::ReconKey"
         eq = ctx.saw(rt.fn(name="eq", self_adt=RK))
-        r.check(any(c.name == "compare_recon_values" for c in eq.calls), "ReconKey/eq=>compare_recon_values", where(eq), "PartialEq::eq delegates to swimos_recon::compare_recon_values",
-                "ReconKey equality no longer uses the Recon comparator: keys differing only in formatting are separate keys")
+        aok, awhy = answers_only_with(eq, "compare_recon_values")
+        r.check(aok, "ReconKey/eq=>compare_recon_values", where(eq), "PartialEq::eq is swimos_recon::compare_recon_values of the two texts, on every path",
+                "ReconKey equality is not (only) the Recon comparator (%s): keys that differ only in spelling (16 / 0x10, 1e3 / 1E3) compare unequal although their values are equal and their hashes agree" % awhy)
         hs = ctx.saw(rt.fn(name="hash", self_adt=RK))
         r.check(any(c.name == "recon_hash" for c in hs.calls), "ReconKey/hash=>recon_hash", where(hs), "Hash::hash delegates to swimos_recon::recon_hash", "ReconKey hash no longer uses recon_hash: equal keys can hash differently")
         args_eq = sorted(describe_operand(eq, a) for c in eq.calls if c.name == "compare_recon_values" for a in c.args)
